@@ -50,28 +50,6 @@ theorem length_flatten_of_shape (s : List Nat) : ∀ (t : Nest α), t.HasShape s
         obtain ⟨y, hy, rfl⟩ := List.mem_map.mp hx
         exact ih y (hall y hy)
 
-/-- reshape (row-major) of the flattened data is the original nested array, for every shape. -/
-theorem unflatten_flatten (s : List Nat) : ∀ (t : Nest α), t.HasShape s → unflatten s (t.flatten s) = t := by
-  induction s with
-  | nil => intro t h; cases t <;> simp_all [Nest.HasShape, Nest.flatten, unflatten]
-  | cons n s ih =>
-    intro t h
-    cases t with
-    | val a => simp [Nest.HasShape] at h
-    | arr l =>
-      obtain ⟨hn, hall⟩ := h
-      simp only [Nest.flatten, unflatten]
-      have hc : chunks (prodNat s) n (l.map (Nest.flatten s)).flatten = l.map (Nest.flatten s) := by
-        have := chunks_flatten (prodNat s) (l.map (Nest.flatten s)) (by
-          intro x hx
-          obtain ⟨y, hy, rfl⟩ := List.mem_map.mp hx
-          exact length_flatten_of_shape s y (hall y hy))
-        simpa [hn] using this
-      rw [hc, List.map_map]
-      congr 1
-      conv_rhs => rw [← List.map_id l]
-      exact List.map_congr_left (fun x hx => ih x (hall x hx))
-
 theorem chunks_spec (k : Nat) : ∀ (n : Nat) (d : List α), d.length = n * k →
     (chunks k n d).flatten = d ∧ (chunks k n d).length = n ∧ ∀ c ∈ chunks k n d, c.length = k := by
   intro n
@@ -332,14 +310,6 @@ theorem valueUnit_model_two (fac1 fac2 : String → K) (units : Option String) (
   refine ⟨DM.node (("value", v) :: (shapeEntry a.shape ++ unitEntry units)), by simp only [ucModel, h1, hv], ?_⟩
   exact valueUnit_node fac2 a.shape units dw _ v (by rw [h2, hw]) (Or.inl (by rw [h2, hw]; exact hne)) hv h5
 
-/-- `uc.value_unit(uc.model(a, units)) = a` (integers written with a unit come back as floats). -/
-theorem valueUnit_model (fac : String → K) (units : Option String) (a : Arr K)
-    (hw : a.data.length = prodNat a.shape) (hne : prodNat a.shape ≠ 0)
-    (hf : ∀ u, units = some u → factor fac u ≠ 0)
-    (hs : ∀ l, a.data = Data.str l → units = none) :
-    ∃ t, ucModel fac units a = some t ∧ valueUnit fac t = some ⟨a.shape, a.data.castU units⟩ := by
-  obtain ⟨t, h1, h2⟩ := valueUnit_model_two fac fac units a hw hne hs
-  exact ⟨t, h1, by rw [h2, rescale_self fac units hf]⟩
 end
 section box
 variable {K : Type} [Field K]
